@@ -336,12 +336,14 @@ def prepare_label(s: str, convert_unicode: bool, to_snake_case: bool) -> str:
         # Python normalizes identifiers (NFKC) but not the strings that name them (aliases, converter paths)
         s = unicodedata.normalize("NFKC", s)
     s = re.sub(r"\W", "", s)
-    if not ('a' <= s[0].lower() <= 'z'):
-        if '0' <= s[0] <= '9':
-            s = ones[int(s[0])] + "_" + s[1:]
+    if s and '0' <= s[0] <= '9':
+        s = ones[int(s[0])] + "_" + s[1:]
     # pydantic and attrs treat a name with a leading underscore as private: move the underscores to the end
     head = len(s) - len(s.lstrip("_"))
     s = s[head:] + s[:head]
+    if not s.strip("_"):
+        # The key has no letter or digit at all ("", "-", "_")
+        s = "field" + s
     if to_snake_case:
         s = inflection.underscore(s)
     if s in blacklist_words:
